@@ -20,6 +20,8 @@ Allowed == {k \in 1..7 : \E i \in 1..Len(Mask) : SubSeq(Mask, i, i) = Digits[k]}
 InitPrios == IF "VF_INITPRIOS" \in DOMAIN IOEnv THEN LET t == IOEnv.VF_INITPRIOS IN [i \in 1..Len(t) |-> atoi(SubSeq(t, i, i))] ELSE <<>>
 K == IF "VF_K" \in DOMAIN IOEnv THEN atoi(IOEnv.VF_K) ELSE 2
 CapBase == IF "VF_CAP" \in DOMAIN IOEnv THEN atoi(IOEnv.VF_CAP) ELSE 0
+(* fidelity: which S variant of MessageMap::add the edges are compared with (default: repaired code) *)
+ReAddPinned == "VF_READD_PINNED" \in DOMAIN IOEnv /\ IOEnv.VF_READD_PINNED = "1"
 
 (* which clause of P the monitor tracks in this run: "wait", "prop" or "both" (smaller products when split) *)
 Clause == IF "VF_CLAUSE" \in DOMAIN IOEnv THEN IOEnv.VF_CLAUSE ELSE "both"
@@ -39,7 +41,7 @@ StepMonFull(m0, n, e) ==
   ELSE MonPerturb(m0, KindName[k], e[2], prio2, K)
 StepMon(m0, n, e) ==
   LET f == StepMonFull(m0, n, e) IN
-  IF Clause = "wait" THEN [f EXCEPT !.cnt = TLCEval(Zero(NG)), !.hi = 0]
+  IF Clause = "wait" THEN [f EXCEPT !.cnt = TLCEval(Zero(NG))]
   ELSE IF Clause = "prop" THEN [f EXCEPT !.wait = TLCEval(Zero(NG)), !.pert = TLCEval(Zero(NG)), !.mx = TLCEval(Zero(NG)), !.lo = TLCEval(Zero(NG))]
   ELSE f
 
@@ -73,7 +75,7 @@ StepS(s, e) ==
     [] e[1] = 3 -> [s |-> AddPollF(s, FALSE, e[2]), out |-> 0]
     [] e[1] = 4 -> [s |-> AddPollF(s, TRUE, e[2]), out |-> 0]
     [] e[1] = 5 -> [s |-> CondUseF(s, e[2]), out |-> 0]
-    [] e[1] = 6 -> [s |-> ReAddF(s, e[2], InitPrios[e[2]]), out |-> 0]
+    [] e[1] = 6 -> [s |-> ReAddF(s, e[2], InitPrios[e[2]], ReAddPinned), out |-> 0]
     [] e[1] = 7 -> [s |-> TickF(s, e[3]), out |-> 0]
 EdgeConforms(n, e) == LET r == StepS(ToS(G[n].st), e) IN
                       r.out = e[4] /\ Norm(r.s, CapBase) = Norm(ToS(G[e[5]].st), CapBase)
